@@ -211,6 +211,52 @@ func runC17(c *an.Ctx) {
 
 	// ---- R6 mutators keep to their state
 	c17WriteSets(c)
+	// every member of a chain carries the id of the chain *starter*: per-transaction exclusions are stored under the
+	// starter's id and looked up through ParentID_, so a member that inherits from the previous link (id 0) is
+	// never reached by ctl:ruleRemoveTargetById and friends
+	if pr := c.Fn("R4", "internal/seclang.ParseRule"); pr != nil {
+		nP := 0
+		an.Instrs(pr, func(in ssa.Instruction) {
+			st, ok := in.(*ssa.Store)
+			if !ok {
+				return
+			}
+			fv := an.FieldVar(st.Addr)
+			if fv == nil || fv.Name() != "ParentID_" {
+				return
+			}
+			nP++
+			// the value is the ID_ of what getLastRuleExpectingChain returned (the last top-level rule), not of a
+			// value reached by walking .Chain
+			okV := false
+			e := tempName.ReplaceAllString(an.Expr(st.Val), "")
+			for d := range an.Deps(st.Val) {
+				if call, ok := d.(*ssa.Call); ok && call.Call.StaticCallee() != nil && call.Call.StaticCallee().Name() == "getLastRuleExpectingChain" {
+					okV = true
+				}
+			}
+			if strings.Contains(e, ".Chain") || strings.Contains(e, "φ(") {
+				okV = false
+			}
+			// structurally: load of (<result of getLastRuleExpectingChain>).ID_, with nothing (no loop-carried
+			// "last link" variable) in between
+			if u, ok := st.Val.(*ssa.UnOp); ok {
+				if fa, ok := u.X.(*ssa.FieldAddr); ok {
+					base := fa.X
+					// through embedded RuleMetadata
+					if fa2, ok := base.(*ssa.FieldAddr); ok {
+						base = fa2.X
+					}
+					if _, isCall := base.(*ssa.Call); !isCall {
+						okV = false
+					}
+				}
+			}
+			c.Check(okV && strings.HasSuffix(e, ".ID_"), "R4", "chain members inherit ParentID_ from the chain starter", st.Pos(), e,
+				"a chain member's ParentID_ is taken from "+e+" rather than from the chain starter: from the third rule of a chain on it is 0, so run-time exclusions stored under the starter's id never apply to those members")
+		})
+		c.MinCount("R4", "stores of ParentID_ in ParseRule", nP, 1)
+	}
 	// a rule selected by tag or message is updated where it was found: ids are optional (and 0 for every marker),
 	// so looking the rule up again by its id can land on another rule
 	for _, dn := range []string{"directiveSecRuleUpdateTargetByTag", "directiveSecRuleUpdateTargetByMsg", "directiveSecRuleUpdateActionByTag", "directiveSecRuleUpdateActionByMsg"} {
